@@ -11,8 +11,12 @@ def qdist (v g : Rat) : Rat := if v - g < 0 then -(v - g) else v - g
 def fl (xs : List Float) : String := joinSp (xs.map floatToHex)
 def ql (xs : List Rat) : String := joinSp (xs.map ratToStr)
 
-def fops : SearchSpace.Ops Float := ⟨Float.ofNat, fun x => (Float.ceil x).toUInt64.toNat, 0.0, 0.5⟩
-def qops : SearchSpace.Ops Rat := ⟨fun n => (n : Rat), fun x => x.ceil.toNat, 0, mkRat 1 2⟩
+/-- `2 * np.spacing(max(abs a, abs b))` -/
+def spacing2F (a b : Float) : Float :=
+  let m := if Float.abs a < Float.abs b then Float.abs b else Float.abs a
+  2.0 * (Float.ofBits (m.toBits + 1) - m)
+def fops : SearchSpace.Ops Float := ⟨Float.ofNat, fun x => (Float.ceil x).toUInt64.toNat, 0.0, 0.5, spacing2F⟩
+def qops : SearchSpace.Ops Rat := ⟨fun n => (n : Rat), fun x => x.ceil.toNat, 0, mkRat 1 2, fun _ _ => 0⟩
 
 def ssErr {α} (sh : α → String) : SearchSpace.SSErr α → String
   | .boundsNotOfSizeTwo c => s!"err BoundsNotOfSizeTwoError {c}"
@@ -167,6 +171,53 @@ def handle (op : String) (args : List String) : Option String :=
       | .ok v => pure ("ok " ++ floatToHex v)
       | .error (.weightsLength a b) => pure s!"err weights {a} {b}"
       | .error (.filtersLength a b) => pure s!"err filters {a} {b}"
+  | "loss.fourier" => do
+      -- kind (0 ideal / 1 gaussian) f E N | sim (E x N) | real (N)
+      let r ← run (do
+        let kind ← nat; let f ← flt; let e ← nat; let n ← nat
+        let sim ← rep (rep flt n) e
+        let real ← rep flt n
+        pure (kind, f, sim, real)) args
+      let (kind, f, sim, real) := r
+      pure (floatToHex (Drv.Fourier.loss kind f sim real))
+  | "loss.gsl" => do
+      -- L nbValues tsLength | E | sims (E lists of symbols) | obs (list of symbols)
+      let r ← run (do
+        let l ← nat; let nv ← nat; let tl ← nat; let e ← nat
+        let sims ← rep (list nat) e
+        let obs ← list nat
+        pure (l, nv, tl, sims, obs)) args
+      let (l, nv, tl, sims, obs) := r
+      pure (floatToHex (Drv.Losses.gsl sims obs l nv tl))
+  | "loss.likelihood" => do
+      -- rule (0 value / 1 silverman / 2 scott) h R S T D | sim (R x S x D) | real (T x D)
+      let r ← run (do
+        let rule ← nat; let h ← flt; let rr ← nat; let ss ← nat; let tt ← nat; let d ← nat
+        let sim ← rep (rep (rep flt d) ss) rr
+        let real ← rep (rep flt d) tt
+        pure (rule, h, d, sim, real)) args
+      let (rule, h, d, sim, real) := r
+      pure (floatToHex (Drv.Losses.likelihood rule h d sim real))
+  | "loss.msm" => do
+      -- cov (0 identity / 1 inverse variance) standardise (0/1) E N | sim (E x N) | real (N)
+      let r ← run (do
+        let cov ← nat; let st ← nat; let e ← nat; let n ← nat
+        let sim ← rep (rep flt n) e
+        let real ← rep flt n
+        pure (cov, st, sim, real)) args
+      let (cov, st, sim, real) := r
+      pure (floatToHex (Drv.Losses.msm cov (st == 1) sim real))
+  | "loss.minkowski" => do
+      let r ← run (do
+        let p ← nat; let e ← nat; let n ← nat
+        let sim ← rep (rep flt n) e
+        let real ← rep flt n
+        pure (p, sim, real)) args
+      let (p, sim, real) := r
+      pure (floatToHex (Drv.Losses.minkowski p sim real))
+  | "loss.moments" => do
+      let ts ← run (list flt) args
+      pure (fl (Drv.Losses.moments18 ts))
   | "gsl.words" => do
       let (ts, len) ← run (do let ts ← list nat; let l ← nat; pure (ts, l)) args
       pure (showNats (Gsl.getWords ts len) ++ " | " ++
